@@ -6,6 +6,8 @@ import (
 	"encoding/json"
 	"fmt"
 	"os"
+	"strconv"
+	"strings"
 	"sync"
 
 	"github.com/indexsupply/shovel/dig"
@@ -98,6 +100,7 @@ func scanCase(out *lib.Out, d *abi.Decl, vals []*abi.Val, datas [][]byte, garbag
 	indom := d.Root != nil && d.Root.InDomain()
 	ok, msg := true, ""
 	runs := make([]string, 0, len(datas))
+	var sxRuns []string
 	desc := scanDesc{Op: "scan", JSON: d.JSON, Type: abi.TypeString(d.GoType)}
 	size := 0
 	for i, data := range datas {
@@ -127,6 +130,9 @@ func scanCase(out *lib.Out, d *abi.Decl, vals []*abi.Val, datas [][]byte, garbag
 		}
 		if vals != nil {
 			runs = append(runs, fmt.Sprintf("(%s, %s, %d, %s)", abi.CoqVal(d.Root, vals[i]), abi.CB(garbage[i]), abi.HashBytes(data), obs.Coq()))
+			if extractor != nil {
+				sxRuns = append(sxRuns, fmt.Sprintf("(%s %s %d %s)", abi.SxVal(d.Root, vals[i]), abi.SxBytes(garbage[i]), abi.HashBytes(data), obs.Sx()))
+			}
 		}
 		if obs.Kind == "panic" {
 			res = dig.VerifNewResult(d.Event)
@@ -142,10 +148,28 @@ func scanCase(out *lib.Out, d *abi.Decl, vals []*abi.Val, datas [][]byte, garbag
 		}
 	}
 	nontriv := d.NCols > 0 && (d.Root.Depth() > 0 || d.Root.Dynamic())
-	out.Add(lib.Case{
+	c := lib.Case{
 		Coq:  fmt.Sprintf("CScan %s %s %s", abi.CoqEvent(d.Event), lib.CBool(indom), lib.CList(runs)),
-		Desc: desc, Kind: kind, Nontrivial: nontriv, OracleOK: ok, OracleMsg: msg, Size: size})
+		Desc: desc, Kind: kind, Nontrivial: nontriv, OracleOK: ok, OracleMsg: msg, Size: size}
+	// extra-volume cases go to the extracted evaluator only, unless the direct oracle failed
+	if !extraOnly || !ok {
+		out.Add(c)
+	}
+	if extractor != nil {
+		ind := "0"
+		if indom {
+			ind = "1"
+		}
+		extractor.Add(c, fmt.Sprintf("(scan %s %s (%s))", abi.SxEvent(d.Event), ind, strings.Join(sxRuns, " ")), len(sxRuns))
+	}
 }
+
+// thorough tier: the second (extracted) evaluator; extraOnly marks the extra
+// volume that is not written to the vm_compute shards
+var (
+	extractor *abi.Extractor
+	extraOnly bool
+)
 
 var maxData = 1200
 
@@ -265,9 +289,16 @@ func runC09(cfg lib.Cfg) error {
 		return replayC09(cfg, out)
 	}
 	r := lib.NewRNG(cfg.Seed)
-	nDecl, nScan := 250, 260
+	nDecl, nScan, nExtra := 250, 260, 0
 	if cfg.Thorough() {
-		nDecl, nScan, maxData = 4000, 4000, 2500
+		nDecl, nScan, maxData, nExtra = 4000, 4000, 2500, 30000
+		if v, err := strconv.Atoi(os.Getenv("VERIF_ABI_EXTRA")); err == nil { // experiments: volume of the extra stream
+			nExtra = v
+		}
+		var err error
+		if extractor, err = abi.NewExtractor("c09", 8, 400); err != nil {
+			return fmt.Errorf("extracted evaluator: %w", err)
+		}
 	}
 	for i, ins := range corpus() {
 		d, err := abi.NewDecl(fmt.Sprintf("Corpus%d", i), ins)
@@ -305,6 +336,30 @@ func runC09(cfg lib.Cfg) error {
 		}
 		depthHist[d.Root.Depth()]++
 		genScan(g, out, d, g.R.Range(2, 5), kind)
+	}
+	// thorough: extra volume through the extracted evaluator only (the direct
+	// oracles still run on every case; a failing case is added to the shards)
+	extraOnly = true
+	if nExtra > 0 {
+		maxData = 1200 // the extracted model recomputes len(input) at every slice: cost grows with |input|^2
+	}
+	for i := 0; i < nExtra; i++ {
+		g := &abi.Gen{R: r.Fork(), MaxDepth: 3, AllowOut: i%10 == 9}
+		d, err := abi.NewDecl(fmt.Sprintf("X%d", i), g.Inputs(true))
+		if err != nil {
+			return err
+		}
+		if d.Panic != "" {
+			declCase(out, d, "decl-random")
+			continue
+		}
+		genScan(g, out, d, g.R.Range(2, 5), "scan-extracted-only")
+	}
+	extraOnly = false
+	if extractor != nil {
+		if err := extractor.Finish(out); err != nil {
+			return fmt.Errorf("extracted evaluator: %w", err)
+		}
 	}
 	for k, v := range depthHist {
 		out.Dist[fmt.Sprintf("scan-array-depth-%d", k)] = v
